@@ -25,6 +25,7 @@
 from __future__ import annotations
 
 import string
+from decimal import Decimal
 from enum import Enum
 from typing import Union, MutableSequence
 
@@ -172,7 +173,11 @@ class SsbOpParamFixedPoint:
     @classmethod
     def from_float(cls, value: float) -> SsbOpParamFixedPoint:
         slf = cls(0, "0")
-        slf.value = str(value)
+        # str() uses the exponent notation for very small and big numbers, which is not a decimal literal.
+        text = format(Decimal(str(value)), "f")
+        if "." not in text:
+            text += ".0"
+        slf.value = text
         return slf
 
     @classmethod
